@@ -67,6 +67,16 @@ def typed_lists(run):
             q2 = mc_req(rng, exclude=allow); q2["exclude_ty"] = tys
             scs.append(scenario(store_kind=kind, content=content, ops=[{"op": "get_assertion", "req": q}, {"op": "make_credential", "req": q2}],
                                 user={"script": [{"presence": True, "verification": True}] * 2}))
+    # ids that are NOT the held id but close to it: empty, a strict prefix, the held id plus one byte, same length with the
+    # last byte changed - none of them names the held credential
+    for kind in ("ref", "option", "memory", "arc_mutex_memory"):
+        held = bytes(range(0x60, 0x70))
+        content = [mk_passkey(rng, "example.com", cred_id=held, keyidx=0, counter=1)]
+        for near in (b"", held[:1], held[:8], held[:15], held + b"\x00", held + held, held[:15] + b"\xff", held[1:]):
+            for lst in ([near], [near, bytes(16)]):
+                scs.append(scenario(store_kind=kind, content=content,
+                                    ops=[{"op": "get_assertion", "req": ga_req(rng, allow=lst)}, {"op": "make_credential", "req": mc_req(rng, exclude=lst)}],
+                                    user={"script": [{"presence": True, "verification": True}] * 2}))
     return scs
 
 
